@@ -160,8 +160,13 @@ func (x *Exec) havocLoop(s *State, f *Frame, lp *Loop, phis []*ssa.Phi) {
 	}
 	for g := range mods.Ghost {
 		if old, ok := s.Ghost[g]; ok {
-			if sc, ok := old.(*Scalar); ok {
-				s.Ghost[g] = S(x.Ctx.Fresh("ghost."+g, sc.T.Sort))
+			switch o := old.(type) {
+			case *Scalar:
+				s.Ghost[g] = S(x.Ctx.Fresh("ghost."+g, o.T.Sort))
+			case *SliceVal:
+				ln := x.Ctx.Fresh("ghost."+g+"@len", SInt)
+				s.Assume(Ge(ln, IntLit(0)))
+				s.Ghost[g] = &SliceVal{Arr: x.Ctx.Fresh("ghost."+g+"@arr", o.Arr.Sort), Len: ln, Cap: ln, Elem: o.Elem}
 			}
 		}
 	}
